@@ -144,7 +144,9 @@ func (p *parser) parseUnaryExpr() Node {
 	if unaryExp.Right == nil {
 		return nil // previous error
 	}
-	p.validateUnaryType(unaryExp)
+	if !p.validateUnaryType(unaryExp) {
+		return nil // type error reported; callers must not see an ill-typed operand
+	}
 	return unaryExp
 }
 
@@ -333,21 +335,25 @@ func isComparisonOp(tt lexer.TokenType) bool {
 	return tt == lexer.EQ || tt == lexer.NOT_EQ || tt == lexer.LT || tt == lexer.GT || tt == lexer.LTEQ || tt == lexer.GTEQ
 }
 
-func (p *parser) validateUnaryType(unaryExp *UnaryExpression) {
+func (p *parser) validateUnaryType(unaryExp *UnaryExpression) bool {
 	tok := unaryExp.Token()
 	rightType := unaryExp.Right.Type()
 	switch unaryExp.Op {
 	case OP_MINUS:
 		if unaryExp.Right.Type() != NUM_TYPE {
 			p.appendErrorForToken(`"-" unary expects num type, found `+rightType.String(), tok)
+			return false
 		}
 	case OP_BANG:
 		if unaryExp.Right.Type() != BOOL_TYPE {
 			p.appendErrorForToken(`"!" unary expects bool type, found `+rightType.String(), tok)
+			return false
 		}
 	default:
 		p.appendErrorForToken("invalid unary operator", tok)
+		return false
 	}
+	return true
 }
 
 func (p *parser) validateBinaryType(binaryExp *BinaryExpression) {
